@@ -527,6 +527,21 @@ def _fill_sites(fa, res_name):
     return out
 
 
+def result_name(fa):
+    """The local a function returns as its result list (its name does not matter)."""
+    rets = fa.returns()
+    names = sorted({r.value.id for r in rets if isinstance(r.value, ast.Name)})
+    return names[0] if len(names) == 1 else "results"
+
+
+def result_loops(fa, ploops, res_name, also=()):
+    """The outermost position loops that put values into the result list (or contain one of the `also` nodes)."""
+    marks = [c for c in fa.calls("append") if A.dotted(A.call_recv(c)) == res_name]
+    marks += [st for st in fa.stmts(ast.Assign) if any(isinstance(t, ast.Subscript) and A.dotted(t.value) == res_name for t in st.targets)]
+    marks += list(also)
+    return [(l, p) for (l, p) in ploops if fa.enclosing(l, ast.For) is None and any(fa.inside(m, l) for m in marks)]
+
+
 def check_slots(ck, R1):
     """One result slot per input element, at the element's position (batch runner and the
     cache/store merge of get_mementos)."""
@@ -535,11 +550,10 @@ def check_slots(ck, R1):
     br = FA(ck, RL + ".LocalRunnerBackend.batch_run")
     seqs = batch_seqs(br)
     # the result list is whatever local batch_run returns (its name does not matter)
-    rets0 = br.returns()
-    RES = rets0[0].value.id if len(rets0) == 1 and isinstance(rets0[0].value, ast.Name) else "results"
+    RES = result_name(br)
     ploops = position_loops(br, seqs)
     fills = _check_index_fills(ck, br, seqs, ploops, R1, RES, "batch")
-    loops = [(l, p) for (l, p) in ploops if br.enclosing(l, ast.For) is None]
+    loops = result_loops(br, ploops, RES)
     if len(loops) != 1:
         ck.ob(R1, br.key(None, "batch-loop"), False, "batch_run has %d loops enumerating the input list" % len(loops), br.where())
         return None, br
@@ -598,9 +612,7 @@ def _check_merge(ck, R1):
     seqs = Seqs(gm, "fns", merge_call_role)
     # roles: RESG = the returned list; the store answer = what the metadata source answered for the list of misses;
     # 'cache' = the per-position cache answers; the cursor is the counter indexing the store answer
-    gr = gm.returns()
-    rnames = sorted({r.value.id for r in gr if isinstance(r.value, ast.Name)})
-    RESG = rnames[0] if len(rnames) == 1 else "results"
+    RESG = result_name(gm)
     qcalls = [c for c in gm.calls("get_mementos") if A.norm(A.call_recv(c)) == "self._metadata_source" and gm.nodes(c)]
     gm.some(qcalls, "metadata-source get_mementos call")
 
@@ -612,7 +624,7 @@ def _check_merge(ck, R1):
     gfills = _check_index_fills(ck, gm, seqs, ploops, R1, RESG, "merge")
     if gfills:
         return
-    mloops = [(l, p) for (l, p) in ploops if gm.enclosing(l, ast.For) is None]
+    mloops = result_loops(gm, ploops, RESG)
     if len(mloops) != 1:
         ck.ob(R1, gm.key(None, "merge-loop"), False, "get_mementos has no single merge loop over the input positions", gm.where())
         return
@@ -629,7 +641,20 @@ def _check_merge(ck, R1):
             and is_store_answer(n.value, gm.nodes(n)[0])]
     cursors = {n.slice.id if isinstance(n.slice, ast.Name) else None for n in uses}
     oki = len(cursors) == 1 and None not in cursors and bool(miss_edges)
-    if oki:
+    if not uses and miss_edges:
+        # the store answer consumed through an iterator made once before the loop: next(it) is read + advance in one
+        def is_answer_iter(e, at):
+            lv = origins(gm, e, at)
+            return len(lv) == 1 and isinstance(lv[0][0], ast.Call) and isinstance(lv[0][0].func, ast.Name) and lv[0][0].func.id == "iter" \
+                and len(lv[0][0].args) == 1 and is_store_answer(lv[0][0].args[0], lv[0][1]) and not gm.inside(lv[0][0], ml) \
+                and gm.enclosing(lv[0][0], (ast.For, ast.While)) is None
+        nexts = [c for c in gm.calls("next") if isinstance(c.func, ast.Name) and c.args and gm.nodes(c) and is_answer_iter(c.args[0], gm.nodes(c)[0])]
+        others = [c for c in nexts if not gm.inside(c, ml) or not gm.unconditional(c)]
+        if nexts and not others:
+            nn = gm.nodes_all(nexts)
+            oki = exactly_on(gm, heads, nn, miss_edges, hit_edges) and not iteration_counts(gm, heads, nn)[1]
+            ck.paths_enumerated += 2
+    elif oki:
         cursor = cursors.pop()
         binds = all_defs(gm, cursor)
         incs = [d.stmt for d in binds if d.kind == "aug" and isinstance(d.stmt.op, ast.Add) and A.norm(d.stmt.value) == "1" and gm.inside(d.stmt, ml)]
